@@ -36,6 +36,7 @@ import (
 	"sort"
 	"strings"
 	"sync"
+	"time"
 	"unicode/utf8"
 	"weak"
 )
@@ -237,6 +238,11 @@ func (m *c38Mirror) typ(t types.Type) reflect.Type {
 		m.cache[t] = rt
 		return rt
 	}
+	if c38IsTime(t) {
+		rt = reflect.TypeOf(time.Time{})
+		m.cache[t] = rt
+		return rt
+	}
 	if n, ok := t.(*types.Named); ok && n.NumMethods() > 0 {
 		for i := 0; i < n.NumMethods(); i++ {
 			switch n.Method(i).Name() {
@@ -366,6 +372,24 @@ func (m *c38Mirror) unstr(s string) []*Term {
 
 func (m *c38Mirror) toReflect(rv reflect.Value, t types.Type, v Value) {
 	e := m.e
+	if c38IsTime(t) {
+		// time.Time{wall, ext, loc}: only wall-clock UTC instants without a monotonic reading
+		sv, ok := v.(Struct)
+		if !ok || len(sv) != 3 {
+			e.unsupported("encoding/json model: unexpected time.Time layout")
+		}
+		wall, ok1 := sv[0].(*Term)
+		ext, ok2 := sv[1].(*Term)
+		loc, ok3 := sv[2].(Pointer)
+		if !ok1 || !ok2 || !ok3 || !wall.IsConst() || !ext.IsConst() {
+			e.unsupported("encoding/json model: symbolic time.Time field")
+		}
+		if wall.Val>>63 != 0 || !loc.IsNil() {
+			e.unsupported("encoding/json model: time.Time with a monotonic reading or a non-UTC location")
+		}
+		rv.Set(reflect.ValueOf(time.Unix(int64(ext.Val)-62135596800, int64(wall.Val&0x3fffffff)).UTC()))
+		return
+	}
 	switch u := t.Underlying().(type) {
 	case *types.Basic:
 		switch rv.Kind() {
@@ -474,6 +498,11 @@ func (m *c38Mirror) toReflect(rv reflect.Value, t types.Type, v Value) {
 // map[string]any, []any, float64, string, bool, nil) kept as an opaque concrete Go value.
 type c38Generic struct{ v any }
 
+func c38IsTime(t types.Type) bool {
+	n, ok := t.(*types.Named)
+	return ok && n.Obj().Pkg() != nil && n.Obj().Pkg().Path() == "time" && n.Obj().Name() == "Time"
+}
+
 func c38IsRawMessage(t types.Type) bool {
 	n, ok := t.(*types.Named)
 	return ok && n.Obj().Pkg() != nil && n.Obj().Pkg().Path() == "encoding/json" && n.Obj().Name() == "RawMessage"
@@ -481,6 +510,11 @@ func c38IsRawMessage(t types.Type) bool {
 
 func (m *c38Mirror) fromReflect(rv reflect.Value, t types.Type) Value {
 	e := m.e
+	if c38IsTime(t) {
+		tm := rv.Interface().(time.Time).UTC()
+		st := t.Underlying().(*types.Struct)
+		return Struct{e.ts.BV(64, uint64(tm.Nanosecond())), e.ts.BV(64, uint64(tm.Unix()+62135596800)), e.zero(st.Field(2).Type())}
+	}
 	switch u := t.Underlying().(type) {
 	case *types.Basic:
 		switch rv.Kind() {
@@ -752,7 +786,7 @@ func c38Digest(e *Exec, stream []*Term) []*Term {
 func init() {
 	extraIntrinsics = append(extraIntrinsics, func(p *Program) {
 		// C24 uses only the exact encoding/json model of this file (Decode of concrete JSON documents)
-		jsonOnly := p.check != nil && p.check.Property == "C24"
+		jsonOnly := p.check != nil && (p.check.Property == "C24" || p.check.Property == "C18")
 		if p.check == nil || (p.check.Property != "C38" && !jsonOnly) {
 			return
 		}
@@ -982,6 +1016,31 @@ func c38Register(p *Program) {
 // c38RegisterJSON: exact encoding/json (the real library on a reflect mirror of the Go types).
 func c38RegisterJSON(p *Program) {
 	I := p.intrinsics
+	// C18: only the entries that restart through the real state codec ("ThroughCodec") use this exact
+	// model; every other C18 entry keeps the models registered before (intr_C40.go: the controller
+	// checksum view as four unconstrained bytes, which is what lets Revision stay symbolic there)
+	if p.check != nil && p.check.Property == "C18" {
+		names := []string{"encoding/json.Marshal", "encoding/json.Unmarshal", "encoding/json.Valid", "encoding/json.NewDecoder",
+			"(*encoding/json.Decoder).DisallowUnknownFields", "(*encoding/json.Decoder).Decode", "(*encoding/json.Decoder).More", "(*encoding/json.Decoder).InputOffset"}
+		prev := map[string]intrinsic{}
+		for _, n := range names {
+			prev[n] = I[n]
+		}
+		defer func() {
+			for _, n := range names {
+				exact, old, name := I[n], prev[n], n
+				I[n] = func(e *Exec, fr *frame, args []Value) Value {
+					if strings.Contains(e.entryName, "ThroughCodec") {
+						return exact(e, fr, args)
+					}
+					if old == nil {
+						e.unsupported("external function without intrinsic: " + name)
+					}
+					return old(e, fr, args)
+				}
+			}
+		}()
+	}
 	I["encoding/json.Marshal"] = func(e *Exec, fr *frame, args []Value) Value {
 		src, ok := args[0].(Iface)
 		if !ok || src.t == nil {
